@@ -78,6 +78,26 @@ def make_queries(rng, names, param_names, n):
                 qs.append({"q": "attribute", "parent": rng.choice(classes)[1].replace(".", "/"), "name": rng.choice(param_names)})
         elif funcs:
             qs.append({"q": "result", "function": rng.choice(funcs)[1]})
+    # bursts about one class, the way the analyser asks: the class, its constructor, its attributes
+    # (documented and undocumented ones, in any order), its methods and their parameters
+    for _ in range(max(1, n // 10)):
+        if not classes:
+            break
+        c = rng.choice(classes)[1]
+        cid = c.replace(".", "/")
+        burst = [{"q": "class", "fullname": c}, {"q": "function", "fullname": c + ".__init__"}]
+        own_attrs = [a[1].rsplit(".", 1)[1] for a in attrs if a[2] == c]
+        for an in own_attrs + rng.sample(param_names, 3):
+            burst.append({"q": "attribute", "parent": cid, "name": an})
+        for pn in rng.sample(param_names, 3):
+            burst.append({"q": "parameter", "function": c + ".__init__", "name": pn, "parent": cid})
+        for f in [x for x in funcs if x[2] == c][:3]:
+            burst.append({"q": "function", "fullname": f[1]})
+            burst.append({"q": "parameter", "function": f[1], "name": rng.choice(param_names), "parent": cid})
+            burst.append({"q": "result", "function": f[1]})
+        rng.shuffle(burst)
+        at = rng.randrange(len(qs) + 1)
+        qs[at:at] = burst
     # repeat some queries right after each other (cache hits) and revisit earlier ones
     out = []
     for q in qs:
@@ -124,7 +144,10 @@ def run(ctx) -> None:
     reqs, metas = [], []
     saved = list(sys.path)
     try:
+        import time
         for label, pkgdir, st in trees(ctx, impl, rng, base):
+            if time.time() > ctx.deadline:
+                break
             parser_kind = {"numpydoc": Parser.numpy, "google": Parser.google, "rest": Parser.sphinx}[st]
             sys.path[:] = [p for p in saved if p not in ("", ".") and not str(pkgdir.resolve()).startswith(p.rstrip("/") + "/")]
             try:
